@@ -1,9 +1,9 @@
 package model
 
 import (
-	"strconv"
 	"encoding/base64"
 	"fmt"
+	"strconv"
 	"strings"
 
 	"verif/sim/kit"
